@@ -210,6 +210,9 @@ func (st *State) assumeTypeInv(v Val) {
 	if isIntLit(v.S) || isStrLit(v.S) || v.S == "true" || v.S == "false" {
 		return
 	}
+	if strings.Contains(v.S, "q!") {
+		return // mentions a bound variable of a specification quantifier: not a closed term
+	}
 	key := v.S + "@" + st.alloc + ":" + sortOf(v.T)
 	if st.known[key] {
 		return
